@@ -117,6 +117,27 @@ fn main() {
         stream_side(&input, opt(&args[3]).map(|x| x as usize), opt(&args[4]));
         return;
     }
+    if side == "advance" {
+        // ConsumingIovec::advance_slices over borrowed slices of the given lengths (no placeholder pending:
+        // the stable prefix is everything)
+        let lens = parse_list(&args[3]);
+        let count: usize = args[4].parse().unwrap();
+        let res = std::panic::catch_unwind(|| {
+            let mut iov = owning_iovec::OwningIovec::new();
+            for (i, l) in lens.iter().enumerate() {
+                let buf: &'static [u8] = Box::leak(vec![i as u8; *l].into_boxed_slice());
+                iov.push_borrowed(buf);
+            }
+            let before = iov.total_size();
+            let n = iov.consumer().advance_slices(count);
+            (n, before - iov.total_size())
+        });
+        match res {
+            Err(_) => println!("ADVANCE PANIC"),
+            Ok((n, gone)) => println!("ADVANCE returned={} removed={}", n, gone),
+        }
+        return;
+    }
     if side == "readwrap-enc" || side == "readwrap-dec" {
         readwrap_side(side == "readwrap-enc", &input, &parse_list(&args[3]));
         return;
